@@ -6,7 +6,10 @@ B3: TLC runs the machine on every case and checks machine = closed form, every s
 B2: the real sequence_otel_job_id_streams runs on every case (all rooted trees up to the tier's size with interval
     endpoints on a grid x {sync, async} x prior-information / rename maps, plus seeded trees up to 30 spans);
     TLC compares the emitted job with Expected: every span once, fields copied, types (rename), links.
-    The timestamp field is validated against spec/PvTime.tla (end time -> PV string)."""
+    The timestamp field is validated against spec/PvTime.tla (end time -> PV string).
+    A further family goes through one run of the real otel_to_pv per group of 2-3 workflows: the prior-information and
+    rename maps travel through the configuration (looked up per workflow name), the spans through the SQL data holder;
+    every emitted job is compared with Expected for its own workflow's maps."""
 import learner
 import seqr
 import tlc
@@ -95,11 +98,48 @@ def evaluate(chk, cs, outs, stats):
     return len(cs), len(ol)
 
 
+def pipeline_family(chk, tier, seed, stats):
+    """the same rules through ONE run of the real otel_to_pv per group of 2-3 workflows: the maps come from the
+    configuration (per workflow name), the spans from the data holder's grouped stream"""
+    groups = seqr.pipeline_groups(30 if tier == "quick" else 300, seed)
+    work = [{"cid": "p%d" % k, "op": "sequence_pipeline", "groups": groups[k:k + 10], "seed": seed + k, "timeout": 900}
+            for k in range(0, len(groups), 10)]
+    res = learner.run_cases(work, parallel=14)
+    outs = []
+    for w in work:
+        r = res[w["cid"]]
+        if not r.get("ok"):
+            raise RuntimeError("pipeline sequencer worker failed: %s" % r)
+        outs.extend(r["outs"])
+    cs, fake = [], []
+    for g, o in zip(groups, outs):
+        key = "one otel_to_pv run over workflows " + " | ".join("%s: %s" % (c["name"], describe(c)[:300]) for c in g)
+        if "error" in o:
+            chk.violation(key, "pipeline-raised:" + o["error"].split(":")[0], {"group": g, "error": o["error"]})
+            continue
+        if set(o["jobs"]) != {c["job"] for c in g}:
+            chk.violation(key, "pipeline-jobs", {"group": g, "emitted_job_ids": sorted(o["jobs"])})
+            continue
+        for c in g:
+            js = o["jobs"][c["job"]]
+            pv = [dict(e, eventId=str(e.get("eventId", "")).split("/", 1)[-1],
+                       previousEventIds=[str(p).split("/", 1)[-1] for p in e.get("previousEventIds", [])])
+                  for j in js for e in j["pv"]]
+            if len(js) != 1 or js[0]["name"] != c["name"]:
+                chk.violation(key, "pipeline-workflow", {"case": c, "emitted_under": [j["name"] for j in js]})
+                continue
+            cs.append(c)
+            fake.append({"pv": pv, "njobs": 1})
+    n, _ = evaluate(chk, cs, fake, stats)
+    return len(groups), n
+
+
 def run(chk, tier, seed):
     cs = cases(tier, seed)
     outs = observe(cs, seed)
     stats = {}
     n, nts = evaluate(chk, cs, outs, stats)
+    ngroups, npipe = pipeline_family(chk, tier, seed, stats)
     k = len(cs) // 2
     chk.samples = [{"case": describe(cs[k]), "emitted": outs[k].get("pv")}, {"case": describe(cs[-1])[:600]}]
     nontriv = sum(1 for c in cs if c["n"] >= 3)
@@ -108,7 +148,10 @@ def run(chk, tier, seed):
            "rule": "all rooted trees with <= 3 spans (grid 0..4; thorough 0..6) and 4 spans (grid 0..2; thorough 0..3), distinct "
                    "sibling starts, no touching sibling windows, x {sync, async} x prior-information / rename maps, plus seeded "
                    "trees of 2-30 spans with random maps, plus a root with 3 children in every placement of their windows on a grid 0..4 "
-                   "(async, with and without prior-information groups); non-trivial = at least 3 spans",
+                   "(async, with and without prior-information groups); plus groups of 2-3 trees under different workflow names, each "
+                   "with its own maps, sequenced by one run of the real otel_to_pv (maps through the configuration, spans through "
+                   "the data holder); non-trivial = at least 3 spans",
+           "pipeline_runs": ngroups, "pipeline_trees_validated": npipe,
            "distinct_timestamps_validated": nts, "exhaustive": False}
     return cov, ["mapped (renamed) names are fresh; renamed types do not occur in prior-information maps",
                  "no sibling's end equals another sibling's start", "one trace per call of the sequencer"]
